@@ -227,6 +227,8 @@ def _unordered(e: ast.AST, fn: Func, depth: int = 0) -> Optional[ast.AST]:
         return e
     if isinstance(e, ast.Call) and isinstance(e.func, ast.Name) and e.func.id in ("set", "frozenset"):
         return e
+    if isinstance(e, ast.Call) and norm(e.func) in ("set.intersection", "set.union", "frozenset.union", "frozenset.intersection", "set.difference"):
+        return e
     if isinstance(e, ast.BinOp) and isinstance(e.op, (ast.BitOr, ast.BitAnd, ast.Sub, ast.BitXor)):
         return _unordered(e.left, fn, depth + 1) or _unordered(e.right, fn, depth + 1)
     if isinstance(e, ast.Name):
@@ -252,6 +254,20 @@ def _unordered_through(e: ast.AST, fn: Func) -> Optional[ast.AST]:
     w = _unordered(e, fn)
     if w is not None:
         return w
+    if isinstance(e, ast.Name):
+        # the values of a dict of sets: `for k, S in D.items()` / `{.. for k, S in D.items()}` with D = defaultdict(set)
+        for n in walk_own(fn.node):
+            gens = n.generators if isinstance(n, (ast.ListComp, ast.SetComp, ast.DictComp, ast.GeneratorExp)) else \
+                [n] if isinstance(n, ast.For) else []
+            for g in gens:
+                it = g.iter
+                if isinstance(it, ast.Call) and isinstance(it.func, ast.Attribute) and it.func.attr in ("items", "values") and isinstance(it.func.value, ast.Name):
+                    tgt = g.target
+                    val = tgt.elts[-1] if isinstance(tgt, ast.Tuple) and it.func.attr == "items" else tgt
+                    if isinstance(val, ast.Name) and val.id == e.id:
+                        for _s, v in bindings(fn).get(it.func.value.id, []):
+                            if isinstance(v, ast.Call) and norm(v.func).endswith("defaultdict") and v.args and norm(v.args[0]) in ("set", "frozenset"):
+                                return v
     if isinstance(e, ast.Call):
         d = norm(e.func)
         if d.endswith("filter_nodes") and e.args:
@@ -388,6 +404,14 @@ def _key_components(prog: Program, fn: Func, key: ast.AST) -> Optional[Set[objec
     return out
 
 
+# keyed min / max over node sets where a tie cannot change the result - each confirmed by reading the code
+TIES_HARMLESS = {
+    ("fixes.remove_duplicate_functions", "min"): "the elements are function definitions of the module body; two `def`s cannot share a line",
+    ("fixes._move_before_scope", "min"): "the elements are the textually equal statements found in every branch; whichever of two tied ones is copied unparses to the same text",
+    ("fixes._move_after_scope", "max"): "the elements are the textually equal statements found in every branch; whichever of two tied ones is copied unparses to the same text",
+}
+
+
 def _r6_4(prog: Program, res: Result) -> None:
     """A sort with a key only forgets the iteration order of a set if the key tells all elements apart: sorted() is
     stable, so elements with equal keys keep the order in which the set produced them - the hash-seed order.  For every
@@ -401,12 +425,27 @@ def _r6_4(prog: Program, res: Result) -> None:
             key = next((k.value for k in c.keywords if k.arg == "key"), None)
             if key is None:
                 continue
-            src = _unordered(c.args[0], fn)
+            src = _unordered_through(c.args[0], fn)
             if src is None:
                 continue
             built = _tuple_arity(c.args[0], fn)
             if built is None or not built.elts:
-                continue       # sets of nodes (address order) or of plain str (R6.3) are not this rule's business
+                # a set of syntax nodes ordered by position: the line number alone does not tell apart two nodes on one line
+                # (`x = g(1); x = g(2)`, a def on line 1 and the Module, whose default line is 1) - ties keep address order
+                kt = norm(key)
+                if isinstance(key, ast.Lambda) and "lineno" in kt:
+                    n_sites += 1
+                    text = f"{c.func.id}({short(c.args[0], 40)}, key={short(key, 50)})"
+                    harmless = TIES_HARMLESS.get((fn.fq, c.func.id))
+                    if harmless and "col_offset" not in kt:
+                        res.ok("R6.4", fn.loc(c), fn.fq, text, f"ties cannot change the result (confirmed by reading): {harmless}")
+                        continue
+                    ok = "col_offset" in kt
+                    res.decide(ok, "R6.4", fn.loc(c), fn.fq, text,
+                               "nodes are ordered by (line, column): no ties" if ok else
+                               "a set of syntax nodes is ordered by line number only: two nodes on one line (or a node without position, which counts as line 1) "
+                               "tie and keep the set's address order, which differs between processes")
+                continue       # other sets of nodes / of plain str (R6.3) are not this rule's business
             if not all(_strish(x) for x in built.elts):
                 continue       # tuples holding nodes / ranges hash by address or value, not by the str hash seed
             arity = len(built.elts)
@@ -439,6 +478,8 @@ def _callers_in_pipeline(prog: Program, fn: Func, fc: Func) -> List[Tuple[str, s
 from ..selftest import Variant  # noqa: E402
 
 VARIANTS = [
+    Variant("statements-ordered-by-line-only", "FIRE", "fixes",
+            "            name: sorted(mentions, key=lambda node: (node.lineno, node.col_offset))", "            name: sorted(mentions, key=lambda node: node.lineno)", "R6.4"),
     Variant("conditions-folded-in-set-order", "FIRE", "symbolic_math",
             "        for condition in sorted(\n            core.filter_nodes(conditions, templates), key=lambda n: (n.lineno, n.col_offset)\n        ):",
             "        for condition in core.filter_nodes(conditions, templates):", "R6.5"),
